@@ -301,6 +301,11 @@ FIXED = [
     [("open",), ("set", 0, 0, 1, 1), ("write", ""), ("set", 0, 1, 2, 2), ("write", ""), ("set", 0, 1, 4, 4), ("write", "EOL"),
      ("set", 0, 2, 5, 5), ("write", ""), ("set", 1, 0, 6, 6), ("write", ""), ("merge", 0, 2), ("merge", 1, 0), ("merge", 0, 1),
      ("steps",), ("close", True), ("file",)],
+    # uneven cycles and restart points past the last node a cycle has while later cycles exist: tuple order, not component-wise
+    [("open",)] + [op for (c, n) in [(0, 0), (0, 1), (0, 2), (0, 3), (1, 0), (1, 1), (2, 0), (2, 1), (2, 2)]
+                   for op in (("set", c, n, 10 * c + n + 1, 7), ("write", ""))]
+    + [("merge", 1, 2), ("merge", 0, 4), ("merge", 1, 0), ("merge", 2, 1), ("merge", 0, 9), ("merge", 1, 5), ("merge", 3, 0),
+       ("merge", 0, 0), ("steps",), ("close", True)],
     # naming bound: cycle 100 sorts before cycle 99 and is not listed
     [("open",), ("set", 99, 0, 1, 1), ("write", ""), ("set", 100, 0, 2, 2), ("write", ""), ("set", 5, 100, 3, 3), ("write", ""),
      ("steps",), ("file",), ("close", True)],
@@ -342,8 +347,14 @@ def gen_history(rng):
         elif x < 0.82:
             ops.append(("history", rng.choice([BLOCK, CORE])))
         elif x < 0.92:
-            if written and rng.random() < 0.75:
+            x2 = rng.random()
+            if written and x2 < 0.45:
                 sc, sn = rng.choice(written)
+            elif written and x2 < 0.85:
+                # an absent start step just past (or well past) the last node some cycle has, or in the cycle after the last
+                sc = rng.choice(sorted({w[0] for w in written}) + [max(w[0] for w in written) + 1])
+                last = max([w[1] for w in written if w[0] == sc] or [-1])
+                sn = last + rng.choice([1, 1, 2, 5])
             else:
                 sc, sn = rng.randint(0, 3), rng.randint(0, 4)
             ops.append(("merge", sc, sn))
@@ -454,6 +465,105 @@ def section_moves(ctx):
             os.remove(f"mv{rd}.h5")
     model = lean_run("SnapStore", reqs)
     ctx.compare("SnapStore.history vs Database.getHistories after a move", cases, model, impl)
+
+
+# --------------------------------------------------------------------------- (2b) identity across processes
+def section_serials(ctx):
+    """A database written by one process is loaded by a fresh one (serial counter restarted, as a new interpreter
+    has it), new assemblies are built and added, the history is merged and a later node written: serial numbers of
+    new objects continue after the largest loaded one, no two live objects share one, histories stay per object."""
+    import copy
+    from armi.bookkeeping.db import Database
+    from armi.reactor.parameters import parameterCollections as pc
+
+    reqs, impl, cases = [], [], []
+    saved = pc.GLOBAL_SERIAL_NUM
+    try:
+        with common.scratch_dir():
+            # ---- process A: a run that discarded objects (serials have gaps; the largest exceeds the count)
+            pc.GLOBAL_SERIAL_NUM = 0
+            o, r = load_small()
+            for _ in range(ctx.rng.randint(1, 3)):
+                copy.deepcopy(r.core[0])                       # built and thrown away
+            extra = copy.deepcopy(r.core[0]); extra.makeUnique()
+            r.core.add(extra, r.core.spatialGrid[1, 0, 0])
+
+            def objs_of(rr):
+                return list(rr.core) + [b for a in rr.core for b in a]
+
+            def stamp(rr, step):
+                for x in objs_of(rr):
+                    if hasattr(x.p, "chargeTime"):
+                        x.p.chargeTime = float(x.p.serialNum * 10 + step)
+                    else:
+                        x.p.power = float(x.p.serialNum * 10 + step)
+            dba = Database("procA.h5", "w"); dba.open(); dba.writeInputsToDB(o.cs)
+            reqs += ["reset", "open"]; impl += ["ok", "ok"]; cases += [{"serials": "A"}] * 2
+            for step in (0, 1):
+                r.p.cycle, r.p.timeNode = 0, step
+                stamp(r, step)
+                with common.quiet():
+                    dba.writeToDB(r)
+                reqs.append(f"set 0 {step} [" + ",".join(f"[{int(x.p.serialNum)},{int(x.p.serialNum) * 10 + step}]" for x in objs_of(r)) + "]")
+                reqs.append("write -"); impl += ["ok", "ok"]; cases += [{"serials": "A", "step": step}] * 2
+            dba.close(True)
+            old_serials = sorted(int(x.p.serialNum) for x in [r, r.core] + r.core.getChildren(deep=True))
+            ctx.count("serials: written with gaps (max - count)", old_serials[-1] - len(old_serials))
+            # ---- process B: a fresh interpreter's counter, load, build new assemblies, merge, write, query
+            pc.GLOBAL_SERIAL_NUM = 0
+            with Database("procA.h5", "r") as src:
+                with common.quiet():
+                    r2 = src.load(0, 1, cs=o.cs, allowMissing=True)
+                loaded = sorted(int(x.p.serialNum) for x in [r2, r2.core] + r2.core.getChildren(deep=True))
+                if loaded != old_serials:
+                    ctx.fail("serials-loaded-as-written", "loaded objects carry the serial numbers they were written with",
+                             {"written": old_serials}, observed=loaded)
+                if pc.GLOBAL_SERIAL_NUM < max(loaded):
+                    ctx.fail("serial-counter-continues-after-load", "after a load the serial counter is at least the largest loaded serial number",
+                             {"written": old_serials}, observed=int(pc.GLOBAL_SERIAL_NUM), expected=max(loaded))
+                old_objs = objs_of(r2)
+                new_objs = []
+                for loc in ((0, 1, 0), (-1, 1, 0), (-1, 0, 0), (0, -1, 0)):
+                    a = copy.deepcopy(r2.core[0]); a.makeUnique()
+                    r2.core.add(a, r2.core.spatialGrid[loc])
+                    new_objs += [a] + list(a)
+                live = [int(x.p.serialNum) for x in [r2, r2.core] + r2.core.getChildren(deep=True)]
+                if len(set(live)) != len(live):
+                    dup = sorted({v for v in live if live.count(v) > 1})
+                    ctx.fail("serials-unique-after-load-and-create", "no two live objects share a serial number (objects created after a load "
+                             "must not reuse a loaded serial)", {"written": old_serials}, observed=dup)
+                dbb = Database("procB.h5", "w"); dbb.open(); dbb.writeInputsToDB(o.cs)
+                dbb.mergeHistory(src, 0, 2)
+                r2.p.cycle, r2.p.timeNode = 0, 2
+                stamp(r2, 2)
+                with common.quiet():
+                    dbb.writeToDB(r2)
+                reqs.append("set 0 2 [" + ",".join(f"[{int(x.p.serialNum)},{int(x.p.serialNum) * 10 + 2}]" for x in objs_of(r2)) + "]")
+                reqs.append("write -"); impl += ["ok", "ok"]; cases += [{"serials": "B"}] * 2
+                blocks = [x for x in old_objs + new_objs if not hasattr(x.p, "chargeTime")]
+                assems = [x for x in old_objs + new_objs if hasattr(x.p, "chargeTime")]
+                hb = dbb.getHistories(blocks, ["power"])
+                ha = dbb.getHistories(assems, ["chargeTime"])
+                for x, h, par in [(b, hb, "power") for b in blocks] + [(a, ha, "chargeTime") for a in assems]:
+                    sn = int(x.p.serialNum)
+                    got = [(k, int(v)) for k, v in h[x][par].items()]
+                    steps = [0, 1, 2] if any(x is y for y in old_objs) else [2]
+                    exp = [((0, st), sn * 10 + st) for st in steps]
+                    if got != exp:
+                        ctx.fail("history-identity-across-processes", "an old object's history never shows a new object's values and a new "
+                                 "object has no entries for steps before it existed", {"serial": sn, "new": steps == [2],
+                                                                                      "type": type(x).__name__}, observed=got, expected=exp)
+                    if len(set(live)) == len(live):     # the model matches objects by serial number: comparable only while they are unique
+                        reqs.append(f"history {sn} 0")
+                        impl.append("[" + ",".join(f"({k[0]},{k[1]}):{v}" for k, v in got) + "]")
+                        cases.append({"serials": "B", "serial": sn})
+                    ctx.case(("serial-history", sn, len(steps)))
+                dbb.close(True)
+            ctx.count("serials: objects created after a load", len(new_objs))
+    finally:
+        pc.GLOBAL_SERIAL_NUM = max(saved, pc.GLOBAL_SERIAL_NUM)     # never hand out a serial twice in this process
+    model = lean_run("SnapStore", reqs)
+    ctx.compare("SnapStore.history vs Database.getHistories across a load in a fresh process", cases, model, impl)
 
 
 # --------------------------------------------------------------------------- (3) crash points
@@ -726,6 +836,7 @@ def run(ctx):
     common.import_armi()
     section_histories(ctx)
     section_moves(ctx)
+    section_serials(ctx)
     section_crashes(ctx)
     ctx.rule = ("(1) fixed + generated histories of open/set/write[label]/load/steps/history/merge/split/close on a real Database "
                 "(one case = one history; every op's answer compared with the stateful model and judged by the shadow-record oracle); "
